@@ -264,6 +264,20 @@ def lib_corr(ctx, model, quick):
     if bad:
         ctx.violation('correspondence-broken', {'broken': 'C16.normpath_corr', 'input': bad[0][0], 'model': bad[0][1],
                                                 'impl': bad[0][2], 'count': len(bad)}, found_input=False, key='normpath')
+    # basename / splitext
+    names = strs[:6000] + ['a.tar.gz', '.bashrc', '..a', 'a..b', 'x/.y', 'x.d/y', 'a.', '.', '..', '...', 'a.b/', 'x/.a.b',
+                           '.a.', 'é.ü', 'a.b.c/d']
+    outs = model.run_many([[10, s] for s in names])
+    bad = [(s, common.wstr(o[0]), common.wstr(o[1])) for s, o in zip(names, outs)
+           if common.wstr(o[0]) != os.path.basename(s) or common.wstr(o[1]) != os.path.splitext(s)[1]]
+    for s in names:
+        ctx.note_case(('ext', s), bool(os.path.splitext(s)[1]))
+    ctx.count('basename-splitext', len(names))
+    if bad:
+        ctx.violation('correspondence-broken', {'broken': 'C16.splitext_corr', 'input': bad[0][0],
+                                                'model': list(bad[0][1:]),
+                                                'impl': [os.path.basename(bad[0][0]), os.path.splitext(bad[0][0])[1]],
+                                                'count': len(bad)}, found_input=False, key='splitext')
     # strip
     import sys as _sys
     ws = [chr(c) for c in range(_sys.maxunicode + 1) if chr(c).isspace()]
@@ -394,10 +408,10 @@ def requests_corr(ctx, falcon, testing, model, base, root, listing, quick):
     configs = [
         ('/static', root, None, False),
         ('/static/', root, 'index.html', True),
-        ('/s', root, os.path.join(base, 'secret.txt'), False),   # absolute fallback outside the directory
+        ('/s', root, os.path.join(base, 'secret.txt'), True),   # absolute fallback outside the directory
         ('/', root, None, False),
         ('/deep/er/', os.path.join(root, 'sub'), None, False),
-        ('/t', root + '/', 'sub/inner.txt', False),
+        ('/t', root + '/', 'sub/inner.txt', True),
     ]
     apps = {}
     for ci, (prefix, d, fb, dl) in enumerate(configs):
@@ -486,8 +500,28 @@ def requests_corr(ctx, falcon, testing, model, base, root, listing, quick):
         ctx.violation('containment-violated', {'what': 'OPTIONS opened a file', 'opened': opened}, key='options')
 
 
+MEDIA_TYPES = {}
+ROUTES = {}
+
+
+def pfx_of(cfg):
+    return cfg[0] if cfg[0].endswith('/') else cfg[0] + '/'
+
+
+def real_route(ci):
+    return ROUTES[ci]
+
+
 def run_cases(ctx, falcon, testing, model, configs, one, cases, listing, files_wire, base, root):
     wires, obs = [], []
+    if not MEDIA_TYPES:
+        MEDIA_TYPES.update(falcon.ResponseOptions().static_media_types)
+    if not ROUTES or ROUTES.get('configs') is not configs:
+        from falcon.routing.static import StaticRoute
+        ROUTES.clear()
+        ROUTES['configs'] = configs
+        for k, (prefix, d, fb, dl) in enumerate(configs):
+            ROUTES[k] = StaticRoute(prefix, d, downloadable=dl, fallback_filename=fb)
     for ci, path, rv, ims, mode in cases:
         prefix, d, fb, dl = configs[ci]
         pfx = prefix if prefix.endswith('/') else prefix + '/'
@@ -499,20 +533,26 @@ def run_cases(ctx, falcon, testing, model, configs, one, cases, listing, files_w
         matched = (rpath.startswith(pfx) or (fb is not None and rpath == pfx[:-1]))
         rh = parse_range_real(falcon, testing, rv)
         status, hd, body, opened = one(ci, path, rv, ims, mode)
-        obs.append((status, hd, body, opened, rpath, matched, nd, fbn, rh))
-        wires.append([2, [pfx, nd, ([] if fbn is None else [fbn])], files_wire, 0, rpath,
-                      ([] if ims is None else [ims]), rh])
+        real_match = bool(real_route(ci).match(rpath))
+        obs.append((status, hd, body, opened, rpath, matched, nd, fbn, rh, real_match))
+        types = [[k, v] for k, v in MEDIA_TYPES.items() if k in rpath or (fbn is not None and k in fbn)]
+        wires.append([9, [pfx, nd, ([] if fbn is None else [fbn]), dl], files_wire, 0, rpath,
+                      ([] if ims is None else [ims]), rh, types])
         wires.append([1, pfx, fb is not None, nd, rpath])
     outs = model.run_many(wires)
+    corr_break = []
     contain_q, contain_meta = [], []
     resp_q, resp_meta = [], []
     nm_q, nm_meta = [], []
-    corr_break = []
+    hdr_q, hdr_meta = [], []
     nbad = 0
     for k, (case, o) in enumerate(zip(cases, obs)):
         ci, path, rv, ims, mode = case
-        status, hd, body, opened, rpath, matched, nd, fbn, rh = o
-        m_serve, m_san = outs[2 * k], outs[2 * k + 1]
+        status, hd, body, opened, rpath, matched, nd, fbn, rh, real_match = o
+        (m_serve, m_hdrs), m_san = outs[2 * k], outs[2 * k + 1]
+        if bool(m_san[0]) != real_match and not any(d.get('broken') == 'C16.match_corr' for d in corr_break):
+            corr_break.append({'broken': 'C16.match_corr', 'config': list(configs[ci]),
+                               'req_path': [ord(c) for c in rpath], 'impl': real_match, 'model': bool(m_san[0])})
         ctx.note_case(('req', k), bool(opened))
         ctx.count('request-' + mode)
         ctx.count('status-%s' % status)
@@ -545,6 +585,39 @@ def run_cases(ctx, falcon, testing, model, configs, one, cases, listing, files_w
             if nbad <= 1:
                 corr_break.append(dict(detail, broken='C16.serve_corr', impl=got, model=exp_c,
                                        model_opens=exp_opened))
+        # (2a) headers derived from the file that is actually served
+        if m_hdrs and status in (200, 206):
+            want_ct = common.wstr(m_hdrs[0][0])
+            want_cd = None
+            if m_hdrs[0][1]:
+                tmp = falcon.Response()
+                tmp.downloadable_as = common.wstr(m_hdrs[0][1][0])
+                want_cd = tmp.get_header('Content-Disposition')
+            ctx.count('headers-compared')
+            if want_cd is not None:
+                ctx.count('headers-with-disposition')
+            if hd.get('content-type') != want_ct or hd.get('content-disposition') != want_cd:
+                ctx.count('header-disagree')
+                if not any(d.get('broken') == 'C16.headers_corr' for d in corr_break):
+                    corr_break.append(dict(detail, broken='C16.headers_corr',
+                                           impl=[hd.get('content-type'), hd.get('content-disposition')],
+                                           model=[want_ct, want_cd]))
+        # binding: the headers of a served file are those of the file that was actually opened
+        if status in (200, 206) and opened:
+            f = opened[-1]
+            hdr_q.append([11, [pfx_of(configs[ci]), nd, ([] if fbn is None else [fbn]), configs[ci][3]],
+                          [[k2, v2] for k2, v2 in MEDIA_TYPES.items() if k2 in f], f])
+            hdr_meta.append((detail, hd))
+        # binding: the fallback is served exactly when the sanitised candidate is not a regular file
+        if (mode == 'direct' or matched) and m_san[1] and fbn is not None and fbn in listing:
+            cand = common.wstr(m_san[1][0])
+            served_fb = bool(opened) and opened[-1] == fbn and status in (200, 206, 304, 400, 416)
+            if cand not in listing and not served_fb:
+                ctx.violation('fallback-violated', dict(detail, what='candidate does not exist but the fallback '
+                                                        'was not served', candidate=cand), key='fallback-missing')
+            if cand in listing and cand != fbn and opened and opened[-1] == fbn:
+                ctx.violation('fallback-violated', dict(detail, what='fallback served although the candidate exists',
+                                                        candidate=cand), key='fallback-spurious')
         # (2b) binding: "anything else is a 404" - only the documented statuses, and 404 when no file was opened
         if status not in (200, 206, 304, 400, 404, 416) or (not opened and status != 404):
             ctx.violation('not-404', dict(detail, what='a request that served no file was not answered 404'),
@@ -567,6 +640,20 @@ def run_cases(ctx, falcon, testing, model, configs, one, cases, listing, files_w
             ctx.violation('containment-violated', dict(detail, outside=p,
                                                        what='a file outside the directory (and not the fallback) was opened'),
                           key='containment')
+    verdicts = model.run_many(hdr_q)
+    for (detail, hd), v in zip(hdr_meta, verdicts):
+        want_ct = common.wstr(v[0])
+        want_cd = None
+        if v[1]:
+            tmp = falcon.Response()
+            tmp.downloadable_as = common.wstr(v[1][0])
+            want_cd = tmp.get_header('Content-Disposition')
+        if hd.get('content-type') != want_ct or hd.get('content-disposition') != want_cd:
+            ctx.violation('headers-violated',
+                          dict(detail, what='Content-Type / Content-Disposition are not those of the served file',
+                               expected=[want_ct, want_cd],
+                               impl=[hd.get('content-type'), hd.get('content-disposition')]),
+                          key='headers-%s' % (hd.get('content-type') != want_ct))
     verdicts = model.run_many(nm_q)
     for (detail, status), v in zip(nm_meta, verdicts):
         if bool(v) != (status == 304):
@@ -591,7 +678,7 @@ def run_cases(ctx, falcon, testing, model, configs, one, cases, listing, files_w
     for d in corr_break:
         # behaviour differs from the model; a failing input exists iff some oracle clause failed above
         ctx.violation('correspondence-broken', d, found_input=any(v['found_input'] for v in ctx.violations),
-                      key='serve-corr')
+                      key='corr-' + d['broken'])
     if cases:
         c = cases[0]
         ctx.sample({'path': c[1], 'range': c[2], 'status': obs[0][0], 'opened': obs[0][3]})
